@@ -490,7 +490,11 @@ func (t *Collection) VisitItemsRandom(
 			// The behaviour we want is to visit the first item in each of blockStore
 			// then on the second item update blockStore to point to that second item
 			// repeat for each item in the block
+			if si == nil {
+				continue // this block ran out of items in an earlier round
+			}
 			first := true
+			advanced := false
 			vis := func(itm *Item, depth uint64) bool {
 
 				if first {
@@ -498,12 +502,16 @@ func (t *Collection) VisitItemsRandom(
 					return visitor(itm, depth)
 				}
 				first = true
+				advanced = true
 				blockStore[i] = itm.Key
 				return false
 			}
 			err = t.VisitItemsAscendEx(si, true, vis)
 			if err != nil {
 				return err
+			}
+			if !advanced {
+				blockStore[i] = nil
 			}
 		}
 	}
